@@ -6,6 +6,7 @@ package rtsp
 
 import (
 	"bufio"
+	"errors"
 	"fmt"
 	"io"
 	"sort"
@@ -59,6 +60,11 @@ const (
 	FieldUserAgent         = "User-Agent"         // (R:opt.:all)
 	FieldVia               = "Via"                // (g:opt.:all)
 	FieldWWWAuthenticate   = "WWW-Authenticate"   // (r:opt.:all)
+)
+
+const (
+	maxHeaderLines   = 256     // 单个消息允许的最大头部行数
+	maxContentLength = 1 << 20 // 允许的最大消息体（SDP、参数）长度
 )
 
 type badStringError struct {
@@ -158,7 +164,10 @@ func (h Header) clone() Header {
 // ReadHeader 根据规范的格式从 r 中读取 Header
 func ReadHeader(r *bufio.Reader) (Header, error) {
 	h := make(Header, 6) // 多数情况够了
-	for {
+	for lines := 0; ; lines++ {
+		if lines > maxHeaderLines {
+			return nil, errors.New("too many header lines")
+		}
 		var kv string
 		kv, err := readLine(r)
 		// 返回错误
@@ -284,9 +293,9 @@ func readLine(r *bufio.Reader) (string, error) {
 		if !more {
 			break
 		}
-		// if len(line) >maxLineLenght {
-		// 	return string(line),errors.New("line over the maximum length")
-		// }
+		if len(line) > maxLineLenght {
+			return "", errors.New("line over the maximum length")
+		}
 	}
 	return string(line), nil
 }
